@@ -13,7 +13,7 @@
      one_sheet out f g : out = Ok [cone; plane]; -s is {f < 0 and g > 0},
        +s is {f > 0 or g < 0}, and the cone's zero set is that of f. *)
 From Coq Require Import List ZArith Bool Reals Lra.
-From T4V Require Import Base.Scalar C02.Vec C02.Spec C02.Model C02.Proofs C02.ProofsCards C02.ProofsP3 C02.ProofsAll C02.ProofsAxis C02.ProofsNum.
+From T4V Require Import Base.Scalar C02.Vec C02.Spec C02.Model C02.Proofs C02.ProofsCards C02.ProofsP3 C02.ProofsAll C02.ProofsAxis C02.ProofsNum C02.ProofsIds.
 Import ListNotations.
 Open Scope R_scope.
 
@@ -393,6 +393,26 @@ Proof.
 Qed.
 Print Assumptions C02_number_items_spec.
 
+(* from the collection to the written ids: after number_items, for every MCNP
+   surface of the dictionary the literals written for -s (the opposites of the
+   matching's ids, intersected) and for +s (the ids, united) select exactly
+   neg_coll / pos_coll of its collection -- so the statements above, made on
+   collections, hold for the ids that appear in the VOLU lines.
+   lit_holds num l p: the surface numbered |l| is PLUS-selected (l > 0) or
+   MINUS-selected (l < 0) at p. *)
+Theorem C02_numbered_ids_select_regions :
+  forall (dic : list (Z * collR)) num mat,
+  number_items dic = Ok (num, mat) ->
+  (forall k, In k (keys dic) -> (0 < k)%Z) -> NoDup (keys dic) ->
+  Forall (fun kv => unit_sides (snd kv)) dic ->
+  NoDup (map fst num) /\
+  Forall2 (fun kv km =>
+             fst km = fst kv /\
+             forall p, (neg_ids num (snd km) p <-> neg_coll (snd kv) p) /\
+                       (pos_ids num (snd km) p <-> pos_coll (snd kv) p)) dic mat.
+Proof. exact numbered_ids_select_regions. Qed.
+Print Assumptions C02_numbered_ids_select_regions.
+
 (* ---------- Spec sanity (the Spec says what the manual says) ---------- *)
 Theorem C02_spec_sanity :
   (forall (p1 p2 p3 : vec (T:=R)) (A B C D : R),
@@ -414,6 +434,16 @@ Proof.
   - exact xyz_spec_contains_points.
 Qed.
 Print Assumptions C02_spec_sanity.
+
+(* Spec.sense_value (the number compared with the harness's Python reference by
+   the tie spec-fM) has the sign of the MCNP sense used above *)
+Theorem C02_sense_value_sign : forall (ms : msurf (T:=R)) (p : pointR),
+  (sense_value RS ms p < 0 <->
+     m_f ms p < 0 /\ match m_sheet ms with None => True | Some g => 0 < g p end) /\
+  (0 < sense_value RS ms p <->
+     0 < m_f ms p \/ match m_sheet ms with None => False | Some g => g p < 0 end).
+Proof. exact sense_value_sign. Qed.
+Print Assumptions C02_sense_value_sign.
 
 (* ---------- non-vacuity ---------- *)
 (* the guard of C02_P_three_points_locus_sense holds for the plane z = 1 through
